@@ -17,6 +17,8 @@ ParsFor(opt) ==
   THEN {[delim |-> d, comment |-> c, python |-> FALSE, join |-> TRUE, jpool |-> TRUE] : d \in {<<61>>, <<58, 61>>}, c \in CommentSets}
   ELSE IF opt = "nojoin"          \* the same files read WITHOUT the option: the first definition wins
   THEN {[delim |-> d, comment |-> c, python |-> FALSE, join |-> FALSE, jpool |-> TRUE] : d \in {<<61>>, <<58, 61>>}, c \in CommentSets}
+  ELSE IF opt = "sections"        \* few line shapes, many lines: sections that re-open after other sections
+  THEN {[delim |-> d, comment |-> c, python |-> FALSE, join |-> FALSE, jpool |-> FALSE, spool |-> TRUE] : d \in {<<61>>, <<32>>, <<32, 61>>}, c \in {<<35>>}}
   ELSE {[delim |-> d, comment |-> c, python |-> FALSE, join |-> FALSE, jpool |-> FALSE] : d \in DelimSets, c \in CommentSets}
 
 \* ---- separators by delimiter class ----
@@ -48,7 +50,8 @@ Conts(p) ==
   THEN {ContL(sp, w, E, E, E), ContL(tb \o sp, w, E, E, E)}
        \cup (IF cl = "NONBLANK" THEN {ContL(sp, w \o <<nbd[1]>> \o v, E, E, E), ContL(sp, w \o sp \o v, sp, E, E)} ELSE {})
   ELSE IF cl = "NONBLANK"
-  THEN {ContL(sp, w, E, E, E), ContL(tb \o sp, w \o sp \o v, E, E, E), ContL(sp, w, sp, E, E), ContL(sp, w, sp, <<c1>>, cc)}
+  THEN {ContL(sp, w, E, E, E), ContL(tb \o sp, w \o sp \o v, E, E, E), ContL(sp, w, sp, E, E), ContL(sp, w, sp, <<c1>>, cc),
+        ContL(sp, <<QUOTE>> \o w, E, E, E), ContL(sp, v \o <<QUOTE>>, E, E, E)}        \* a quoted text that starts on a continuation line
   ELSE IF cl = "BLANK" THEN {ContL(sp, w, E, E, E), ContL(tb \o sp, w, E, E, E)}
   ELSE {}
 
@@ -73,7 +76,10 @@ JoinPool(p) ==
   \cup {EntryL(sp, a, sp \o s1 \o sp, v \o sp \o w, FALSE, sp, E, E)}
   \cup {ContL(sp, w, E, E, E), ContL(tb \o sp, v \o sp \o w, sp, E, E)}
 
-Pool(p, withBad) == IF p.jpool THEN JoinPool(p) ELSE
+SectionPool(p) == LET s1 == Sep1(p.delim) IN
+  {HeaderL(E, <<83>>, E), HeaderL(E, <<84>>, E)} \cup {EntryL(E, k, s1, v, FALSE, E, E, E) : k \in {a, b, cc}}
+IsSPool(p) == "spool" \in DOMAIN p /\ p.spool
+Pool(p, withBad) == IF IsSPool(p) THEN SectionPool(p) ELSE IF p.jpool THEN JoinPool(p) ELSE
            Blanks \cup Comments(p) \cup Headers
            \cup (IF Class(p.delim) = "NONE" THEN KeyOnlys ELSE Entries(p) \cup Conts(p))
            \cup (IF withBad THEN Bads(p) ELSE {})
